@@ -200,6 +200,27 @@ def step (d : DSt) (j : Json) : DSt × List String :=
       (d, [s!"r={resCls r.2} created={m} | {o}"])
     | .ok _, .err e => let (d, o) := observe d; (d, [s!"r=err:create:{e} | {o}"])
     | _, _ => let (d, o) := observe d; (d, [s!"r=err:create:unparseable | {o}"])
+  | "rbwin" =>
+    let cs := jArr j "calls"
+    let d := cs.foldl absorb d
+    let cds := cs.map callOf
+    let env := envOf d cds
+    match cds with
+    | [a, b] =>
+      -- A: rolled back by a store fault after its write function (model: the cancelled Add, the error is the fault);
+      -- B: runs after A's critical section (the reload included)
+      let (sA, rA) := match a.tx with
+        | .ok t => let r := addCancelled env d.subs d.st t a.payload
+                   (r.1, match r.2 with | .err "cancelled" => "err:fault" | x => resCls x)
+        | .err e => (d.st, "err:" ++ e)
+        | .panic p => (d.st, "panic:" ++ p)
+      let (sB, rB) := match b.tx with
+        | .ok t => let r := add env d.subs sA t b.payload; (r.1, resCls r.2)
+        | .err e => (sA, "err:" ++ e)
+        | .panic p => (sA, "panic:" ++ p)
+      let (d, o) := observe { d with st := sB }
+      (d, [s!"resA={rA} resB={rB} | {o}"])
+    | _ => (d, ["bad-op:rbwin"])
   | "reopen" =>
     let (d, o) := observe d
     (d, ["reopen " ++ o])
